@@ -54,7 +54,7 @@ def gen_chain_cases(chk):
             offs = [rnd_offset(rng) for _ in range(2)] if k else [OFFSETS_SMALL[3], (OFFSETS_SMALL + OFFSETS_LARGE)[i % 14]]
             add("d2_exhaustive", [offs[0] + o1, offs[1] + o2], allpts)
     # depth 3 and 4: exhaustive over orientations in the thorough tier, sampled in the quick tier
-    for depth, nq in ((3, 150), (4, 250)):
+    for depth, nq in ((3, 64), (4, 96)):
         chains = list(itertools.product(ORIENT8, repeat=depth))
         if quick:
             chains = [chains[i] for i in sorted(rng.sample(range(len(chains)), nq))]
@@ -62,7 +62,7 @@ def gen_chain_cases(chk):
             pl = [rnd_offset(rng) + o for o in ch]
             add("d%d_%s" % (depth, "sampled" if quick else "exhaustive"), pl, allpts if quick or depth == 3 else GRID + EXTREME_PTS[:2])
     # depth 1-4 with the other spellings mixed in
-    for _ in range(60 if quick else 1500):
+    for _ in range(40 if quick else 1500):
         d = rng.randint(1, 4)
         pl = [rnd_offset(rng) + (rng.random() < 0.5, rng.choice(TABLE_ANGLES + [None])) for _ in range(d)]
         add("mixed_spellings", pl, allpts)
@@ -93,7 +93,7 @@ def gen_general_cases(chk):
         for r in (False, True):
             add("general_d1", [(10, 20, r, a)])
             add("general_d1", [rnd_offset(rng, "large") + (r, a)])
-    for _ in range(80 if quick else 3000):
+    for _ in range(50 if quick else 3000):
         d = rng.randint(1, 4)
         pl = []
         for _ in range(d):
@@ -122,7 +122,7 @@ def gen_flatten_cases(chk):
     rng = chk.rng
     quick = chk.tier == "quick"
     cases, dist = [], {}
-    for n in range(260 if quick else 6000):
+    for n in range(208 if quick else 6000):
         depth = 1 + n % 4
         with_missing = (n % 13 == 12)
         cells, levels = [], []
@@ -159,11 +159,13 @@ def gen_flatten_cases(chk):
     return cases, dist
 
 def gen_elem_cases(chk):
-    cases = [{"op": "elem", "kind": "identity"}, {"op": "elem", "kind": "reflect_vert"}]
+    cases = [{"op": "elem", "ekind": "identity"}, {"op": "elem", "ekind": "reflect_vert"}]
     for a in TABLE_ANGLES:
-        cases.append({"op": "elem", "kind": "rotate", "a": a})
+        cases.append({"op": "elem", "ekind": "rotate", "a": a})
     for (x, y) in OFFSETS_SMALL + OFFSETS_LARGE + OFFSETS_BEYOND:
-        cases.append({"op": "elem", "kind": "translate", "x": x, "y": y})
+        cases.append({"op": "elem", "ekind": "translate", "x": x, "y": y})
+    for c in cases:
+        c["kind"] = "elementary_constructors"
     return cases, {"elementary_constructors": len(cases)}
 
 # ------------------------------------------------------------------ Coq terms
@@ -231,11 +233,13 @@ def coq_item(c, r):
     if c["op"] == "elem":
         if "t" not in r:
             return None
-        return capp("check_elem", cz(ELEM_KIND[c["kind"]]), cz(c.get("x", 0)), cz(c.get("y", 0)), cz(int(c.get("a", 0))), cbitsl(r["t"]))
+        return capp("check_elem", cz(ELEM_KIND[c["ekind"]]), cz(c.get("x", 0)), cz(c.get("y", 0)), cz(int(c.get("a", 0))), cbitsl(r["t"]))
     return None
 
 def harness_case(c):
-    d = {k: v for k, v in c.items() if k not in ("kind", "general")}
+    d = {k: v for k, v in c.items() if k not in ("kind", "general", "ekind")}
+    if c["op"] == "elem":
+        d["kind"] = c["ekind"]
     if c["op"] == "chain":
         d["pl"] = [[lx, ly, r, None if a is None else float(a)] for (lx, ly, r, a) in c["pl"]]
     if c["op"] == "flatten":
@@ -290,7 +294,10 @@ def general_judge(c, r):
 
 # ------------------------------------------------------------------ evaluation
 def evaluate(chk, cases, tag):
+    import time as _t
+    _t0 = _t.time()
     res = harness("c12", [harness_case(c) for c in cases])
+    log("C12: harness %.1fs" % (_t.time() - _t0))
     items, idx = [], []
     out = [None] * len(cases)
     for i, (c, r) in enumerate(zip(cases, res)):
@@ -312,10 +319,10 @@ def evaluate(chk, cases, tag):
 
 def case_weight(c):
     if c["op"] == "chain":
-        return (0, len(c["pl"]), len(c["pts"]), sum(abs(v) for p in c["pl"] for v in p[:2]))
+        return (1 if c.get("general") else 0, len(c["pl"]), len(c["pts"]), sum(abs(v) for p in c["pl"] for v in p[:2]))
     if c["op"] == "flatten":
-        return (1, tree_size(c["cells"], c["top"]), len(json.dumps(c)), 0)
-    return (2, 0, 0, 0)
+        return (2, tree_size(c["cells"], c["top"]), len(json.dumps(c)), 0)
+    return (3, 0, 0, 0)
 
 def shrink(chk, viol):
     """One round: for the smallest failing chain cases try every single placement and every single point."""
@@ -338,8 +345,12 @@ def shrink(chk, viol):
         return best
     bad = [(c, r) for c, r in zip(cands, rs) if r[0] == 2]
     if bad:
-        bad.sort(key=lambda cr: (sum(abs(v) for p in cr[0]["pl"] for v in p[:2]) + sum(abs(v) for v in cr[0]["pts"][0]),
-                                 0 if cr[0]["pl"][0][3] in (0, 90, 180, 270) else 1))
+        def key(cr):
+            c, r = cr
+            same_image = isinstance(r[1], dict) and r[1].get("p") == r[1].get("pe")
+            return (1 if same_image else 0, 0 if c["pl"][0][3] in (0, 90, 180, 270) else 1,
+                    sum(abs(v) for p in c["pl"] for v in p[:2]) + sum(abs(v) for v in c["pts"][0]))
+        bad.sort(key=key)
         return bad[0]
     return best
 
@@ -350,9 +361,11 @@ def nontrivial_key(c):
         return json.dumps([c["pl"], c["pts"]])
     if c["op"] == "flatten":
         return json.dumps(c["cells"]) if any(cc.get("insts") for cc in c["cells"]) else None
-    return json.dumps([c["kind"], c.get("x"), c.get("y"), c.get("a")]) if c["kind"] != "identity" else None
+    return json.dumps([c["ekind"], c.get("x"), c.get("y"), c.get("a")]) if c["ekind"] != "identity" else None
 
 def run(chk, replay=None):
+    import time as _t
+    _t0 = _t.time()
     chk.proof_leg(["Geom/TransformCheck.vo"], "Properties/C12.v", ["Geom/Transform_proofs.v"], "Properties.C12")
     chk.assumptions += [
         "libm sin/cos are not modelled: the ring-level theorems hold for EVERY pair (c, s); the float-level theorem is about the eight bit patterns in coq/Gen/LibmGen.v, regenerated from the implementation on every run",
@@ -361,6 +374,7 @@ def run(chk, replay=None):
     ]
     chk.notes.append("general angles (30, 45, 17.5 degrees, random): ring-level theorems apply; in the correspondence the implementation is compared with the float model fed with the implementation's own sin/cos doubles (exact), "
                      "and with an 80-digit decimal reference at half-unit tolerance (+1e-3): this last comparison is a TEST, not a proof")
+    log("C12: proof leg %.1fs" % (_t.time() - _t0))
     if not getattr(chk, "model_ok", False):
         return
     if replay:
@@ -378,7 +392,9 @@ def run(chk, replay=None):
                        "Non-trivial: some placement is not the identity / some cell has an instance; distinct by full input")
     if not cases:
         return
+    _t1 = _t.time()
     results = evaluate(chk, cases, "c12")
+    log("C12: %d cases evaluated in %.1fs" % (len(cases), _t.time() - _t1))
     chk.cov["evaluations"] = len(cases)
     chk.cov["point_images_compared"] = sum(4 * len(c["pts"]) for c in cases if c["op"] == "chain")
     chk.cov["flattened_elements_compared"] = sum(tree_size(c["cells"], c["top"]) for c in cases if c["op"] == "flatten")
